@@ -7,9 +7,11 @@
 package main
 
 import (
+	"bytes"
 	"fmt"
 	"go/ast"
 	"go/parser"
+	"go/printer"
 	"go/token"
 	"os"
 	"path/filepath"
@@ -967,6 +969,9 @@ func main() {
 	}
 	w("]\n")
 
+	// --- source text of the pure wallet selection / fee / split functions (agent "select", C18) ---
+	emitSelectFacts(w, walletP, cashuP, mintP)
+
 	w("\nend Gonuts.Gen\n")
 
 	if outPath == "" {
@@ -980,4 +985,127 @@ func main() {
 	if err := os.WriteFile(outPath, []byte(sb.String()), 0644); err != nil {
 		fail("write: %v", err)
 	}
+}
+
+// ============================================================================================
+// C18 (agent "select"): source-text facts for the pure functions Model/Select.lean mirrors.
+// Data only: the go/printer rendering of each function (signature + body, comments dropped,
+// one trimmed line per entry, blank lines removed) and, for swapToSend — which mixes the
+// arithmetic with storage and HTTP calls that other properties' fixes touch — only the
+// statements that define or test the amount / fee / split variables.
+// Gonuts/Tie/Select.lean proves each equal to the text the model was written against.
+// ============================================================================================
+
+func nodeText(n ast.Node) string {
+	var buf bytes.Buffer
+	if err := printer.Fprint(&buf, fset, n); err != nil {
+		return "<print error: " + err.Error() + ">"
+	}
+	return buf.String()
+}
+
+func srcLines(fd *ast.FuncDecl) []string {
+	if fd == nil || fd.Body == nil {
+		return []string{"<missing>"}
+	}
+	cp := *fd
+	cp.Doc = nil
+	var out []string
+	for _, l := range strings.Split(nodeText(&cp), "\n") {
+		l = strings.TrimSpace(l)
+		if l != "" && !strings.HasPrefix(l, "//") {
+			out = append(out, l)
+		}
+	}
+	return out
+}
+
+func mentions(n ast.Node, names map[string]bool) bool {
+	found := false
+	ast.Inspect(n, func(x ast.Node) bool {
+		if id, ok := x.(*ast.Ident); ok && names[id.Name] {
+			found = true
+		}
+		return !found
+	})
+	return found
+}
+
+// varStatements: in source order, every assignment whose left-hand side is one of `names`
+// ("x := e", "x = e", "x += e"), every `if` condition that mentions one of them ("if c"),
+// and every call statement / call on the right-hand side that takes one of them as an argument
+// and whose callee is in `calls` ("call f(args)").
+func varStatements(fd *ast.FuncDecl, names map[string]bool, calls map[string]bool) []string {
+	var out []string
+	if fd == nil || fd.Body == nil {
+		return []string{"<missing>"}
+	}
+	oneLine := func(n ast.Node) string { return strings.Join(strings.Fields(nodeText(n)), " ") }
+	ast.Inspect(fd.Body, func(n ast.Node) bool {
+		switch x := n.(type) {
+		case *ast.AssignStmt:
+			for _, l := range x.Lhs {
+				if id, ok := l.(*ast.Ident); ok && names[id.Name] {
+					out = append(out, oneLine(x))
+					return true
+				}
+			}
+		case *ast.DeclStmt:
+			if mentions(x, names) {
+				out = append(out, oneLine(x))
+			}
+		case *ast.IfStmt:
+			if mentions(x.Cond, names) {
+				out = append(out, "if "+oneLine(x.Cond))
+			}
+		case *ast.CallExpr:
+			if calls[exprString(x.Fun)] {
+				for _, a := range x.Args {
+					if mentions(a, names) {
+						out = append(out, "call "+oneLine(x))
+						break
+					}
+				}
+			}
+		}
+		return true
+	})
+	return out
+}
+
+func emitSelectFacts(w func(string, ...any), walletP, cashuP, mintP *pkg) {
+	w("\n/-! ## source text of the pure selection / fee / split functions (C18) -/\n")
+	emit := func(lean string, lines []string) {
+		w("def %s : List String := [\n", lean)
+		for i, l := range lines {
+			sep := ","
+			if i == len(lines)-1 {
+				sep = ""
+			}
+			w("  %s%s\n", leanStr(l), sep)
+		}
+		w("]\n")
+	}
+	emit("src_selectProofsToSend", srcLines(findFunc(walletP, "", "selectProofsToSend")))
+	emit("src_selectProofsForAmount", srcLines(findFunc(walletP, "Wallet", "selectProofsForAmount")))
+	emit("src_getProofsForAmount", srcLines(findFunc(walletP, "Wallet", "getProofsForAmount")))
+	emit("src_splitWalletTarget", srcLines(findFunc(walletP, "Wallet", "splitWalletTarget")))
+	emit("src_calculateBlankOutputs", srcLines(findFunc(walletP, "", "calculateBlankOutputs")))
+	emit("src_feesForProofs", srcLines(findFunc(walletP, "", "feesForProofs")))
+	emit("src_feesForCount", srcLines(findFunc(walletP, "", "feesForCount")))
+	emit("src_getProofsFromMint", srcLines(findFunc(walletP, "Wallet", "getProofsFromMint")))
+	emit("src_AmountSplit", srcLines(findFunc(cashuP, "", "AmountSplit")))
+	emit("src_Count", srcLines(findFunc(cashuP, "", "Count")))
+	emit("src_Max", srcLines(findFunc(cashuP, "", "Max")))
+	emit("src_ProofsAmount", srcLines(findFunc(cashuP, "Proofs", "Amount")))
+	emit("src_TransactionFees", srcLines(findFunc(mintP, "Mint", "TransactionFees")))
+	names := map[string]bool{"amount": true, "feesToReceive": true, "splitForSendAmount": true, "split": true,
+		"proofsToSwap": true, "proofsAmount": true, "fees": true, "changeAmount": true, "changeSplit": true}
+	calls := map[string]bool{"slices.Sort": true, "w.selectProofsForAmount": true, "w.splitWalletTarget": true,
+		"feesForCount": true, "feesForProofs": true, "cashu.AmountSplit": true, "w.createBlindedMessages": true,
+		"blindedMessagesFromSpendingCondition": true}
+	emit("stmts_swapToSend_amounts", varStatements(findFunc(walletP, "Wallet", "swapToSend"), names, calls))
+	// createSwapRequest (Receive path) uses the same fee / split helpers
+	emit("stmts_createSwapRequest_amounts", varStatements(findFunc(walletP, "Wallet", "createSwapRequest"),
+		map[string]bool{"fees": true, "split": true, "proofs": true}, map[string]bool{"feesForProofs": true, "w.splitWalletTarget": true}))
 }
